@@ -1,3 +1,3 @@
-// rank-5 part of the views driver (see drv_views.cpp)
+// rank-5 part of the views driver (see drv_views.cpp): the view class; operator() is in drv_views_r5i.cpp / _r5e.cpp
 #include "drv_views.h"
 VIEWS_DEFINE_RANK(5)
